@@ -27,6 +27,17 @@ Readings fixed here (the property text is ambiguous at these points):
    in the if / elif chain of load_score (Model/LoadDispatch.lean; the chain is read off the source on every run).
  * supported subset = what the property's quantifier lists.  Ties are joined note by note, also inside
    chords (the former open finding F-C19-kern-chord-ties is repaired by fixes/C19-27 and always generated).
+ * MEI cross-staff notation: a note stands on its own @staff, else on the @staff of its <chord>, else on the @n of the
+   enclosing <staff>; a rest / measure rest on its own @staff, else the enclosing one.  The PART is the one of the
+   enclosing <staff> (a note written on another staff stays in the part of the staff it is encoded in).
+ * "the divisions chosen represent every duration exactly": every onset and duration of a denoted note or rest and
+   every measure boundary is a whole number of the part's divisions (a <space> need not be: it creates no object; but
+   the notes after it must stand where the notation says).
+ * a kern chord = several notes of ONE written length (`4c 4e`): the reading under which load_kern is right; what a
+   token like `4c 2e` lasts is not fixed by the property.
+ * elements the MEI reader has no branch for are refused when they stand where it reads items (children of layer /
+   beam / tuplet, of section / ending) - nothing is demanded then - and skipped anywhere else: the document then
+   denotes what it denotes without them.
 """
 import io
 import json
@@ -41,7 +52,8 @@ from core import Eval
 PROPERTY = "C19"
 DRIVER = "drv_c19"
 PROPS = ["PartituraModel.Props.C19", "PartituraModel.Props.C19Write", "PartituraModel.Props.C19MeiWrite",
-         "PartituraModel.Props.C19Dispatch", "PartituraModel.Props.C19Sections"]
+         "PartituraModel.Props.C19Dispatch", "PartituraModel.Props.C19Sections", "PartituraModel.Props.C19Divs",
+         "PartituraModel.Props.C19Endings", "PartituraModel.Props.C19Tables", "PartituraModel.Props.C19TieOrder"]
 TRUSTED = [
     "lxml tokenisation of the MEI text into open/close events (the harness does nothing else to the document), also of the "
     "text save_mei writes; numpy loadtxt/genfromtxt splitting of kern rows into cells, np.savetxt joining them",
@@ -52,6 +64,9 @@ TRUSTED = [
     "save_kern's preprocessing (add_measures, fill_rests) and fifths_mode_to_key_name (MEI @pname): their results are the writer models' input",
     "str.lower of non-ASCII extensions in load_score (the model lower-cases ASCII); the readers are replaced by recorders "
     "when the choice of reader is compared on generated paths (the real readers run in the file-based dispatch case)",
+    "harness/translate_c19.py reads the if / elif chains of importmei.MeiParser (layer items, section items, children of <score>, "
+    "barline values, grace types, defaults, multiRest limit, the @staff attribute) off the source text with ast; a chain rewritten into "
+    "another form makes the extraction fail (extractionOk = false: Props/C19Tables stops building) rather than go unnoticed",
 ]
 PARTIAL = [
     "importer = semantics (notes, measures, signatures, divisions of a loaded document) is compared on generated documents, "
@@ -62,50 +77,76 @@ PARTIAL = [
     "nothing is demanded of them",
     "writer models leave out: Tempo, slur and beam signifiers (kern); beams, clef changes, harmonies, fermatas, barline and "
     "repeat attributes, fingerings, stem directions, notes without id, tuplets inside tuplets (MEI) - not generated",
-    "kern chords whose notes have different written lengths (semantics: each its own, the first moves the spine; load_kern: "
-    "all get the length of the last) are outside the common ground: not generated, excluded by Exportable",
-    "kern: *x exchanges, three-way `*v *v *v` joins and **dynam etc. spines are not generated; mixed *part tags only in the "
-    "shape 'some equal, not all'",
+    "kern chords whose notes have different written lengths (`4c 2e`; semantics: each its own, the first moves the spine; load_kern: "
+    "all get the length of the last, which also moves the spine) stay outside the common ground: Humdrum tools disagree on what such "
+    "a token lasts, the reading chosen is the one under which the code is right (a chord = notes of one written length); not "
+    "generated, excluded by Exportable",
+    "kern: *x exchanges are not generated (importer and semantics both ignore the exchange; not in the property's subset); mixed "
+    "*part tags only in the shape 'some equal, not all'; spines of other representations (**dynam, **text) only as the leftmost / "
+    "rightmost spine",
     "MEI: @tie attributes (a TODO of the importer; the property names ties as elements), multiRest of more than one measure "
-    "(refused by importer and model alike), nested tuplets, staffDef changes inside a section are outside the generated subset",
+    "(refused by importer and model alike), nested tuplets, staffDef changes inside a section, tupletSpan / beamSpan as the only "
+    "encoding of a tuplet are outside the generated subset; control events carrying a LIST in @dur (`dur=\"2 8\"`) are not generated "
+    "(importer and model both refuse the document)",
     "verovio path of load_mei not exercised (not installed); 2 MEI fixtures need it and are skipped, 1 kern fixture has a malformed header (load only)",
     "load_score: URLs (downloaded first) and file-like objects are not modelled",
-    "MEI structure: proved (Props/C19Sections) are the tie list = every <tie> of the document wherever it stands, sibling sections = one "
-    "section, a section nested in a section = its content, section attributes irrelevant - for section attributes without @dur / "
-    "@meter.unit (no section has them); that <ending> is as transparent, that a scoreDef change may stand at the end of the previous "
-    "container / between containers / directly in <score>, and that the ORDER of the <tie> elements does not matter (distinct start "
-    "ids) is compared on generated documents (each also written flat and loaded a second time), not proved",
+    "MEI structure: proved are the tie list = every <tie> of the document wherever it stands, sibling sections = one section, a "
+    "section or ending under any neutral parent (section, ending, <score>) = its content, <ending> = <section>, a scoreDef change on "
+    "either side of the start / end tag of a section or ending, a <tie> element moved anywhere else in the document (no two ties "
+    "starting at the same note), empty elements of unknown name = nothing - all for section / ending / tie attributes without @dur / "
+    "@meter.unit (none has them).  The clause `structure` (each document also written flat and loaded a second time) now only ties "
+    "the importer to these theorems",
+    "the end-to-end exactness of the inferred divisions (Props/C19Divs) is proved for documents without @ppq and without @dur.ppq; "
+    "with @dur.ppq the first such element fixes the divisions (mei_ppq_from_dur_ppq) and nothing forces the other durations to be "
+    "whole - the importer asserts it at load time, the generator declares consistent values",
+    "MEI rejection paths (Model/MeiAccept.lean): only the structural checks are mirrored (layer / beam / tuplet items, section / ending "
+    "items, xml:id of notes, rests, chords, measure rests); missing xml:id / @symbol in the header, <dir type=... > without @tstamp "
+    "(TypeError in the importer) and documents with more than one <music> / <score> are not generated",
     "MEI: <ending> / <scoreDef> directly in <score> BEFORE the first section, <tie> as a child of <section> or <layer> (not allowed by "
-    "the CMN schema; the importer refuses them), tupletSpan / @tie as the only encoding of a tuplet / tie are not generated",
+    "the CMN schema; the importer refuses them) are not generated",
 ]
 RULE = ("abstract scores (1-3 staves x 1-2 voices x 1-4 measures; 13 meters incl. 5/8, 7/8, 4/2; pickups; meter and key changes; "
         "plain / dotted / double-dotted / tuplet (3:2, 5:4, 6:4, 7:4, dotted-in-tuplet) values down to 32nds, breves and longs; "
         "chords, rests, grace notes, ties over barlines also between chords, silent measures) written by this module's own writers as kern "
         "(main spines or *^ / *v sub-spines also in mid-measure, one *part / *I group, separate parts or mixed *part tags, *staff, *clef, "
-        "*k[], *M, *MM, barline styles, a%b reciprocals, comments, decorations; a second writer with up to four simultaneous "
-        "sub-spines per spine, split one by one and joined two by two) and as MEI (meter/key/clef as attributes or children of "
+        "*k[], *M, *MM, barline styles, a%b reciprocals, comments, decorations, a **dynam / **text spine left or right of the kern spines; "
+        "a second writer with up to four simultaneous sub-spines per spine, split one by one or several in one row, joined two by two or "
+        "all at once (`*v *v *v`)) and as MEI (meter/key/clef as attributes or children of "
         "staffDef / scoreDef, @ppq and/or @dur.ppq or neither, nested staffGrp and sections, <ending>s, rptstart / rptend, beams, tuplets, "
-        "chords, accid / accid.ges / <accid>, mRest, multiRest num=1, space with and without @dur, incomplete layers, <tie> elements, "
+        "chords, accid / accid.ges / <accid>, mRest, multiRest num=1, space with and without @dur / xml:id, incomplete layers, <tie> elements, "
         "scoreDef meter and key changes; the measures cut into 1-3 sibling top-level sections, nested sections to depth 3, empty sections, "
         "endings inside sections or directly in <score>; every <tie> written in the measure where it starts / ends / the first / the last / "
         "any measure, before or after the staves, <slur>s between arbitrary notes, chords tied in part; scoreDef changes at the end of "
         "the previous container, between the containers (also directly in <score>) or right before their measure; each such document is "
-        "also written flat and both loads compared), loaded through load_kern / load_mei / load_score(.krn .kern .KRN .mei .MEI); "
+        "also written flat and both loads compared; cross-staff notation: @staff on the first / a middle / the last / several / all notes "
+        "of a chord, on the chord, on single notes, grace notes, rests and measure rests; clef changes in layers, beams and tuplets; "
+        "decorations that denote nothing: artic / verse children, fermata, dynam, hairpin, dir, tempo, harm, pedal, fing, trill, beamSpan, "
+        "barline attributes), loaded through load_kern / load_mei / load_score(.krn .kern .KRN .mei .MEI); "
+        "documents of whole quarters into which one group of finer values is planted whose finest value is carried by one kind of element "
+        "only (space, rest, chord, note, dotted values of each, tuplet members, a grace note, the beat unit alone), mostly without declared "
+        "ppq; documents with one injected element the reader refuses (in layer / beam / tuplet / section / ending, a missing xml:id: model = "
+        "code, both refuse) or skips (in measure / staff / score / chord: the oracle applies unchanged); "
         "parts built through the public API (notes entering in voice order or shuffled, acciaccaturas, key and meter changes, a staff "
         "silent without rests, divisions multiplied) exported with save_kern / save_mei: writer model = real output, Exportable agrees "
         "with its Python restatement, the written document denotes what load_score loads and contains every note; a few parts with "
         "one wrong symbolic duration (not Exportable: only model = code); load_score on generated paths with the readers recorded, the "
         "if/elif table read off the source; every kern/mei fixture; table comparison; corpus = shrunk witnesses of the repaired defects + "
-        "hand-written mid-measure splits.  distinct = distinct document text / path list; non-trivial = at least one note loaded")
+        "hand-written mid-measure splits, cross-staff chords and the two round-5 seeds.  distinct = distinct document text / path list; "
+        "non-trivial = at least one note loaded")
 LEVEL_TEXT = ("Lean theorems over all inputs: the denotational semantics of kern and MEI (duration values, pitch letters, onset "
-              "additivity, tie joining note by note, grace notes, exact divisions, inferred ppq); export_import for both writers - "
+              "additivity, tie joining note by note, grace notes, exact divisions, inferred ppq); END TO END through the MEI state machine: "
+              "every element with @dur, whatever its name, enters the inferred divisions, and for every document without declared divisions "
+              "these make every onset, duration and measure boundary of every denoted part whole (no side condition); a note stands on its "
+              "own @staff, else its chord's, else the enclosing staff, and does not pass its @staff on; export_import for both writers - "
               "for every Exportable part (explicit decidable predicate) the written document denotes every note with its onset, "
               "duration, spelling and staff, proved against the same semantics the importers are compared with; load_score picks "
               "the documented reader for every supported extension in any case and rejects all others; the MEI semantics collects every "
               "<tie> of the document wherever it stands and does not depend on how the measures are cut into sibling or nested "
-              "sections (all event lists, any depth). Models are tied to the code "
-              "by exact comparison of the writers' output, of the loaded scores and of the dispatch on generated inputs and every "
-              "fixture, with an independent Python oracle computed from the abstract score.")
+              "sections and endings, nor on which side of a section / ending tag a scoreDef change is written, nor on where and in "
+              "which order the <tie> elements stand (all event lists, any depth); empty elements of unknown name denote nothing; the tables and the dispatch chains the models copy are those of the "
+              "live source (regenerated by a translator on every run). Models are tied to the code "
+              "by exact comparison of the writers' output, of the loaded scores (also of the documents the reader refuses) and of the "
+              "dispatch on generated inputs and every fixture, with an independent Python oracle computed from the abstract score.")
 SEARCH_LIMIT = 1500
 
 STEPS = "CDEFGAB"
@@ -511,6 +552,29 @@ def expected_joined(evs):
     return res
 
 
+def expected_joined_st(evs):
+    """like expected_joined for events (onset, dur, kind, pitches, tie, staffs): a sounding note stands on the staff of
+    its first note; -> (onset, dur, step, alter, oct, staff)"""
+    res = []
+    open_ = {}
+    for (on, du, kind, ps, tie, sts) in evs:
+        if kind != "n":
+            continue
+        new_open = {}
+        for p, sn in zip(ps, sts):
+            key = tuple(p)
+            if key in open_:
+                i = open_[key]
+                res[i] = (res[i][0], res[i][1] + du) + res[i][2:]
+            else:
+                res.append((on, du, p[0], p[1], p[2], sn))
+                i = len(res) - 1
+            if (tie is True) or (not isinstance(tie, bool) and key in tie):
+                new_open[key] = i
+        open_ = new_open
+    return res
+
+
 def tied_keys(e):
     """pitch keys of an event that are tied to the next event: all of them ("tie"), or only those listed
     by index in "tiep" (a chord in which only some notes are tied)"""
@@ -762,6 +826,29 @@ def write_kern(asc, lay, rng):
             rows.append(["*v" if j == i else "*" for (j, si, vi) in cols_now()])
             active[i] = False
     row_all(lambda i, si, vi: "*-")
+    if lay.get("dynam"):
+        # a spine of another representation (**dynam, **text) beside the **kern spines: it denotes no notes
+        drng = random.Random(lay.get("dynam_seed", 0))
+        for r in rows:
+            c0 = r[0]
+            if c0.startswith("!!"):
+                continue
+            if c0.startswith("**"):
+                cell = lay.get("dynam_type", "**dynam")
+            elif c0 == "*-":
+                cell = "*-"
+            elif c0.startswith("*"):
+                cell = "*"
+            elif c0.startswith("="):
+                cell = c0
+            elif c0.startswith("!"):
+                cell = "!"
+            else:
+                cell = drng.choice([".", ".", ".", "p", "f", "mf", "<", ">", "cresc."])
+            if lay["dynam"] == "left":
+                r.insert(0, cell)
+            else:
+                r.append(cell)
     text = "\n".join("\t".join(r) for r in rows) + "\n"
     return text, mains
 
@@ -897,13 +984,18 @@ def write_kern3(asc, lay, rng):
             want = 1 + sum(1 for k in range(1, len(asc["staves"][si]["voices"])) if asc["staves"][si]["voices"][k][m] is not None)
             while active[i] > want:
                 cn = cols_now()
-                rows.append(["*v" if (j == i and k >= active[i] - 2) else "*" for (j, s_, k) in cn])
-                active[i] -= 1
-                tie_state.pop((si, active[i]), None)
+                # two by two, or (lay["joinall"]) all the sub-spines that end here in one `*v *v *v ...` row
+                t = active[i] - want + 1 if lay.get("joinall") else 2
+                rows.append(["*v" if (j == i and k >= active[i] - t) else "*" for (j, s_, k) in cn])
+                for _ in range(t - 1):
+                    active[i] -= 1
+                    tie_state.pop((si, active[i]), None)
             while active[i] < want:
                 cn = cols_now()
-                rows.append(["*^" if (j == i and k == active[i] - 1) else "*" for (j, s_, k) in cn])
-                active[i] += 1
+                # one by one, or (lay["multi"]) as many of the last sub-spines as needed split in the same row
+                t = min(want - active[i], active[i]) if lay.get("multi") else 1
+                rows.append(["*^" if (j == i and k >= active[i] - t) else "*" for (j, s_, k) in cn])
+                active[i] += t
         events = []
         for (i, si, k) in cols_now():
             items, tie_state[(si, k)] = tokens(si, k, m, tie_state.get((si, k), False))
@@ -926,8 +1018,9 @@ def write_kern3(asc, lay, rng):
     for i in range(len(mains)):
         while active[i] > 1:
             cn = cols_now()
-            rows.append(["*v" if (j == i and k >= active[i] - 2) else "*" for (j, s_, k) in cn])
-            active[i] -= 1
+            t = active[i] if lay.get("joinall") else 2
+            rows.append(["*v" if (j == i and k >= active[i] - t) else "*" for (j, s_, k) in cn])
+            active[i] -= t - 1
     row_all(lambda i, si, k: "*-")
     return "\n".join("\t".join(r) for r in rows) + "\n", mains
 
@@ -1139,15 +1232,16 @@ def write_mei(asc, opt, rng):
                 if mm is None:
                     pending[(si, vi)] = []
                     mode = silent_mode(opt, vi, full)
+                    msa = ' staff="%d"' % mrest_staff(opt, si, vi, m) if mrest_staff(opt, si, vi, m) else ""
                     if mode == "mrest" and opt.get("multirest") and rng.random() < 0.5:
-                        w('<layer%s><multiRest xml:id="%s" num="1"/></layer>' % (lattr, ids("mr")))
+                        w('<layer%s><multiRest xml:id="%s" num="1"%s/></layer>' % (lattr, ids("mr"), msa))
                     elif mode == "mrest":
-                        w('<layer%s><mRest xml:id="%s"/></layer>' % (lattr, ids("mr")))
+                        w('<layer%s><mRest xml:id="%s"%s/></layer>' % (lattr, ids("mr"), msa))
                     elif mode == "space_nodur":
-                        w('<layer%s><space xml:id="%s"/></layer>' % (lattr, ids("sp")))
+                        w('<layer%s><space%s/></layer>' % (lattr, space_id(ids, opt)))
                     elif mode == "space":
                         w("<layer%s>%s</layer>" % (lattr, "".join(
-                            '<space xml:id="%s" dur="%s"%s/>' % (ids("sp"), mei_dur(v), ' dots="%d"' % d if d else "")
+                            '<space%s dur="%s"%s/>' % (space_id(ids, opt), mei_dur(v), ' dots="%d"' % d if d else "")
                             for (v, d) in rest_fill(lens[m]))))
                     # "omit": no layer at all
                     continue
@@ -1177,6 +1271,9 @@ def write_mei(asc, opt, rng):
                             pre_, post = t, "</tuplet>"
                     w(pre_)
                     for g in group:
+                        if g.get("clefb"):
+                            # a clef change: a child of the layer, or of the beam / tuplet the event stands in
+                            w('<clef xml:id="%s" shape="%s" line="%d"/>' % ((ids("clef"),) + tuple(g["clefb"])))
                         w(mei_event(g, si, vi, ids, opt, rng, pending, ties, m, reg))
                     w(post)
                     i = j
@@ -1205,6 +1302,36 @@ def write_mei(asc, opt, rng):
         el = '<%s xml:id="%s" startid="#%s" endid="#%s"/>' % (tag, ids(tag), a_, b_)
         front = opt.get("ctl_before", False) if opt.get("ctl_before") in (True, False, None) else crng.random() < 0.5
         (before if front else after)[at].append(el)
+    if opt.get("decor"):
+        # control events that denote no notes (some carry a plain @dur: it only enters the inferred divisions)
+        by_m = {}
+        for (nid_, mi_) in reg:
+            by_m.setdefault(mi_, []).append(nid_)
+        for mi_ in range(nm):
+            for _ in range(crng.choice([0, 1, 1, 2, 3])):
+                nids = by_m.get(mi_) or [None]
+                a_, b_ = crng.choice(nids), crng.choice(nids)
+                ts = ' tstamp="%d" staff="1"' % crng.randint(1, 2)
+                sid = ' startid="#%s"' % a_ if a_ else ts
+                el = crng.choice([
+                    '<fermata xml:id="%s"%s form="norm"/>' % (ids("fer"), sid),
+                    '<dynam xml:id="%s"%s>p</dynam>' % (ids("dyn"), ts),
+                    '<hairpin xml:id="%s" form="cres"%s tstamp2="0m+2"/>' % (ids("hp"), ts),
+                    '<hairpin xml:id="%s" form="dim"%s dur="%s"/>' % (ids("hp"), ts, crng.choice(["1", "2", "4"])),
+                    '<dir xml:id="%s"%s>dolce</dir>' % (ids("dir"), ts),
+                    '<tempo xml:id="%s"%s mm="96" mm.unit="4">Andante</tempo>' % (ids("tmp"), ts),
+                    '<harm xml:id="%s"%s>C7</harm>' % (ids("harm"), ts),
+                    '<pedal xml:id="%s" dir="down"%s/>' % (ids("ped"), ts),
+                    '<fing xml:id="%s"%s>1</fing>' % (ids("fing"), sid),
+                    '<trill xml:id="%s"%s/>' % (ids("tr"), sid),
+                    '<beamSpan xml:id="%s"%s/>' % (ids("bsp"), (' startid="#%s" endid="#%s"' % (a_, b_)) if a_ else ts),
+                ])
+                (before if crng.random() < 0.3 else after)[mi_].append(el)
+        for mi_ in range(nm):
+            if 'right=' not in opening[mi_] and crng.random() < 0.3:
+                opening[mi_] = opening[mi_][:-1] + ' right="%s">' % crng.choice(["dbl", "dashed", "invis", "single"])
+            if 'left=' not in opening[mi_] and crng.random() < 0.15:
+                opening[mi_] = opening[mi_][:-1] + ' left="%s">' % crng.choice(["dbl", "dashed"])
     if opt.get("ctl_shuffle"):
         for lst in before + after:
             crng.shuffle(lst)
@@ -1396,13 +1523,15 @@ def mei_event(e, si, vi, ids, opt, rng, pending, ties, m=0, reg=None):
     if opt.get("ppq") and opt.get("declare", "ppq" if not opt.get("durppq") else "both") in ("durppq", "both") and e["t"] != "g":
         durattrs += ' dur.ppq="%d"' % int(ev_value(e) * opt["ppq"])
     if e["t"] == "s":
-        return '<space xml:id="%s"%s/>' % (ids("sp"), durattrs)
+        return '<space%s%s/>' % (space_id(ids, opt), durattrs)
     if e["t"] == "r":
-        return '<rest xml:id="%s"%s/>' % (ids("r"), durattrs)
+        return '<rest xml:id="%s"%s%s/>' % (ids("r"), durattrs, ' staff="%d"' % e["cs"] if e.get("cs") else "")
 
-    def note(p, with_dur, grace):
+    def note(p, with_dur, grace, own=None):
         nid = ids("n")
         a = ' xml:id="%s"' % nid + (durattrs if with_dur else "") + ' pname="%s" oct="%d"' % (p[0].lower(), p[2])
+        if own:
+            a += ' staff="%d"' % own        # the note is written on another staff than its layer / chord
         child = ""
         mode = opt.get("accid_mode", "attr")
         if mode == "mixed":
@@ -1423,18 +1552,26 @@ def mei_event(e, si, vi, ids, opt, rng, pending, ties, m=0, reg=None):
             a += ' grace="%s"' % opt.get("grace", "acc")
         if opt.get("stems") and rng.random() < 0.3:
             a += ' stem.dir="up"'
+        if opt.get("decor"):
+            # children that denote no note: articulation, lyrics, a written dot
+            drng = random.Random((opt.get("ctl_seed", 0) << 8) ^ ids.n)
+            r_ = drng.random()
+            if r_ < 0.12:
+                child += '<artic xml:id="%s" artic="%s"/>' % (ids("art"), drng.choice(["stacc", "acc", "ten"]))
+            elif r_ < 0.2:
+                child += '<verse xml:id="%s" n="1"><syl xml:id="%s">la</syl></verse>' % (ids("vs"), ids("syl"))
         return nid, ("<note%s>%s</note>" % (a, child) if child else "<note%s/>" % a)
 
     if e["t"] == "g":
-        return note(e["p"][0], True, True)[1]
+        return note(e["p"][0], True, True, own_staff(e, 0))[1]
     # ties: link the waiting notes of this voice with the same pitch
     waiting = pending.get((si, vi), [])
     new_wait = []
     parts = []
     chord = len(e["p"]) > 1
     tk = tied_keys(e)
-    for p in e["p"]:
-        nid, txt = note(p, (not chord) or opt.get("chord_note_dur", False), False)
+    for pi_, p in enumerate(e["p"]):
+        nid, txt = note(p, (not chord) or opt.get("chord_note_dur", False), False, own_staff(e, pi_))
         parts.append(txt)
         if reg is not None:
             reg.append((nid, m))
@@ -1445,8 +1582,36 @@ def mei_event(e, si, vi, ids, opt, rng, pending, ties, m=0, reg=None):
             new_wait.append((tuple(p), nid, m))
     pending[(si, vi)] = new_wait
     if chord:
-        return '<chord xml:id="%s"%s>%s</chord>' % (ids("ch"), durattrs, "".join(parts))
+        return '<chord xml:id="%s"%s%s>%s</chord>' % (ids("ch"), durattrs, ' staff="%d"' % e["cs"] if e.get("cs") else "",
+                                                     "".join(parts))
     return parts[0]
+
+
+def space_id(ids, opt):
+    """a <space> denotes no object: its xml:id is optional (opt["space_noid"]: written without)"""
+    sid = ids("sp")
+    return "" if opt.get("space_noid") else ' xml:id="%s"' % sid
+
+
+def own_staff(e, i):
+    """the @staff written on the i-th note of the event itself (None: none)"""
+    xs = e.get("xs")
+    return xs[i] if xs and i < len(xs) else None
+
+
+def ev_staffs(e, si):
+    """the staff each note (or the rest) of an event stands on: its own @staff, else the @staff of its <chord>, else the
+    @n of the enclosing <staff> (cross-staff notation)"""
+    if e["t"] == "r":
+        return [e.get("cs") or si + 1]
+    ps = e.get("p", [])
+    dflt = (e.get("cs") if (e["t"] == "n" and len(ps) > 1) else None) or si + 1
+    return [own_staff(e, i) or dflt for i in range(len(ps))]
+
+
+def mrest_staff(opt, si, vi, m):
+    """the @staff written on the measure rest of a silent measure (None: none)"""
+    return (opt.get("mrest_staff") or {}).get("%d.%d.%d" % (si, vi, m))
 
 
 def mei_expect(asc, opt):
@@ -1465,22 +1630,22 @@ def mei_expect(asc, opt):
                 if mm is None:
                     mode = silent_mode(opt, vi, full)
                     if mode == "mrest":
-                        evs.append((pos, lens[m], "r", [], False))
+                        evs.append((pos, lens[m], "r", [], False, [mrest_staff(opt, si, vi, m) or si + 1]))
                     if mode != "omit":
                         ends[m].append(pos + lens[m])
                 else:
                     for e in short_layer(opt, si, vi, m, mm):
-                        evs.append((pos, ev_value(e), e["t"], e.get("p", []), tied_keys(e)))
+                        evs.append((pos, ev_value(e), e["t"], e.get("p", []), tied_keys(e), ev_staffs(e, si)))
                         pos += ev_value(e)
                     ends[m].append(pos)
                 t0 += lens[m]
-            for (on, du, kind, ps, tie) in evs:
+            for (on, du, kind, ps, tie, sts) in evs:
                 if kind == "r":
-                    notes.append((on, du, "r", "", 0, 0, vi + 1, si + 1))
+                    notes.append((on, du, "r", "", 0, 0, vi + 1, sts[0]))
                 elif kind in ("n", "g"):
-                    for p in ps:
-                        notes.append((on, du, kind, p[0], p[1], p[2], vi + 1, si + 1))
-            joined += [j + (vi + 1, si + 1) for j in expected_joined(evs)]
+                    for p, sn in zip(ps, sts):
+                        notes.append((on, du, kind, p[0], p[1], p[2], vi + 1, sn))
+            joined += [j[:5] + (vi + 1, j[5]) for j in expected_joined_st(evs)]
         starts, mends, t = [], [], F(0)
         for m in range(nm):
             starts.append(t)
@@ -1492,9 +1657,31 @@ def mei_expect(asc, opt):
             if m > 0 and str(m) in asc.get("meterchg", {}):
                 ts.append((t, asc["meterchg"][str(m)][0], asc["meterchg"][str(m)][1]))
             t += lens[m]
+        clefs = [(F(0), si + 1, st["clef"][0], st["clef"][1])]
+        for vi, voice in enumerate(st["voices"]):
+            t0 = F(0)
+            for m, mm in enumerate(voice):
+                pos = t0
+                for e in (short_layer(opt, si, vi, m, mm) if mm else []):
+                    if e.get("clefb"):
+                        clefs.append((pos, si + 1, e["clefb"][0], e["clefb"][1]))   # the staff the layer stands in
+                    pos += ev_value(e)
+                t0 += lens[m]
         parts.append({"notes": notes, "joined": joined, "mstarts": starts, "mends": mends, "end": t, "ts": ts,
-                      "ks": key_expect(asc), "clefs": [(F(0), si + 1, st["clef"][0], st["clef"][1])]})
+                      "ks": key_expect(asc), "clefs": sorted(clefs)})
     return parts
+
+
+def clef_changes(asc, rng, p=0.08):
+    """MEI only: clef changes inside the layers (e["clefb"]: a <clef> stands right before the event - directly in the
+    layer, or inside the beam / tuplet of the event)"""
+    for st in asc["staves"]:
+        for voice in st["voices"]:
+            for mm in voice:
+                for e in (mm or []):
+                    if rng.random() < p:
+                        e["clefb"] = rng.choice([["G", 2], ["F", 4], ["C", 3], ["C", 4]])
+    return asc
 
 
 def spaces_for_rests(asc, rng, p=0.3):
@@ -1509,6 +1696,193 @@ def spaces_for_rests(asc, rng, p=0.3):
                     if e["t"] == "r" and rng.random() < p:
                         e["t"] = "s"
     return a
+
+
+def cross_staff(asc, opt, rng, p=0.35):
+    """MEI only: cross-staff notation.  Some notes of a chord (the first / a middle one / the last / several / all), the
+    <chord> itself, single notes, grace notes, rests and measure rests get a @staff of their own: e["xs"] = own @staff per
+    note (None: none), e["cs"] = @staff of the chord / rest, opt["mrest_staff"] = {"staff.voice.measure": @staff}"""
+    nst = len(asc["staves"])
+    other = lambda si: rng.choice([n for n in range(1, max(nst, 2) + 2) if n != si + 1] + [si + 1])
+    for si, st in enumerate(asc["staves"]):
+        for vi, voice in enumerate(st["voices"]):
+            for m, mm in enumerate(voice):
+                if mm is None:
+                    if rng.random() < p:
+                        opt.setdefault("mrest_staff", {})["%d.%d.%d" % (si, vi, m)] = other(si)
+                    continue
+                for e in mm:
+                    if rng.random() > p or e["t"] == "s":
+                        continue
+                    if e["t"] == "r":
+                        e["cs"] = other(si)
+                    elif len(e["p"]) == 1:
+                        e["xs"] = [other(si)]
+                    else:
+                        k = len(e["p"])
+                        shape = rng.choice(["first", "last", "middle", "some", "all", "chord", "chord+some", "first", "some"])
+                        xs = [None] * k
+                        if shape == "first":
+                            xs[0] = other(si)
+                        elif shape == "last":
+                            xs[-1] = other(si)
+                        elif shape == "middle":
+                            xs[rng.randrange(1, k - 1) if k > 2 else 0] = other(si)
+                        elif shape in ("some", "chord+some"):
+                            for i in rng.sample(range(k), rng.randint(1, k - 1)):
+                                xs[i] = other(si)
+                        elif shape == "all":
+                            xs = [other(si) for _ in range(k)]
+                        if shape in ("chord", "chord+some"):
+                            e["cs"] = other(si)
+                        if any(xs):
+                            e["xs"] = xs
+    return asc
+
+
+def xstaff_shapes(asc, opt):
+    """which shapes of cross-staff notation a document holds (distribution)"""
+    out = set()
+    if opt.get("mrest_staff"):
+        out.add("mrest")
+    for st in asc["staves"]:
+        for voice in st["voices"]:
+            for mm in voice:
+                for e in (mm or []):
+                    xs = [x for x in (e.get("xs") or [])][:len(e.get("p", []))]
+                    if e["t"] == "r" and e.get("cs"):
+                        out.add("rest")
+                    elif e["t"] == "g" and any(xs):
+                        out.add("grace")
+                    elif e["t"] == "n" and len(e["p"]) == 1 and any(xs):
+                        out.add("note")
+                    elif e["t"] == "n" and len(e["p"]) > 1:
+                        if e.get("cs"):
+                            out.add("chord")
+                        if any(xs):
+                            own = [i for i, x in enumerate(xs) if x]
+                            plain_after = any(i > own[0] for i in range(len(e["p"])) if i >= len(xs) or not xs[i])
+                            out.add("chordnote_then_plain" if plain_after else "chordnote_last_or_all")
+    return out
+
+
+# ---------------------------------------------------------------------------- who carries the finest duration
+FINE_KINDS = ("space", "rest", "chord", "note", "space16", "dot_space", "dot_rest", "dot_note", "dot_chord",
+              "tuplet", "grace", "unit")
+
+
+def gen_asc_fine(rng):
+    """an abstract score of whole quarters (no divisions finer than 1 per quarter needed) into which ONE group of finer
+    values is planted whose finest value is carried only by elements of one kind: <space>, <rest>, <chord>, <note>
+    (eighths), a sixteenth <space>, dotted values of each kind, the members of a tuplet, a grace note (no duration
+    sounds), or the beat unit of the meter alone (measure rests in 3/8, 5/8, 7/8, 3/16).  Written without declared ppq
+    the importer has to infer divisions that represent every one of them.  -> (asc, kind)"""
+    kind = rng.choice(FINE_KINDS + ("space", "space", "space16", "dot_space", "rest", "chord"))
+    nm = rng.randint(1, 3)
+    nst = rng.choice([1, 1, 2])
+    clefs = [["G", 2], ["F", 4], ["C", 3]]
+    if kind == "unit":
+        meter = list(rng.choice([(3, 8), (5, 8), (7, 8), (3, 16), (9, 8)]))
+        asc = {"meter": meter, "key": rng.randint(-3, 3), "mode": None, "pickup": None, "meterchg": {}, "keychg": {},
+               "staves": [{"clef": rng.choice(clefs), "voices": [[None] * nm for _ in range(rng.choice([1, 2]))]}
+                          for _ in range(nst)]}
+        return asc, kind
+    need = 3 if kind.startswith("dot_") else 2
+    meter = list(rng.choice([mt for mt in [(4, 4), (3, 4), (2, 2), (3, 2), (2, 4), (5, 4), (4, 4)] if 4 * mt[0] // mt[1] >= need]))
+    L = 4 * meter[0] // meter[1]
+
+    def pitches(k):
+        ps = []
+        while len(ps) < k:
+            q = rand_pitch(rng)
+            if all((x[0], x[2]) != (q[0], q[2]) for x in ps):
+                ps.append(q)
+        return ps
+
+    def mk(what, v, d=0, tup=None):
+        e = {"t": {"space": "s", "rest": "r"}.get(what, "n"), "v": v, "d": d, "tup": tup}
+        if e["t"] == "n":
+            e["p"] = pitches(rng.randint(2, 3) if what == "chord" else 1)
+        return e
+
+    def coarse(q):
+        out = []
+        while q > 0:
+            k = rng.choice([x for x in (1, 1, 2, 4) if x <= q])
+            out.append(mk(rng.choice(["note", "note", "note", "note", "chord", "rest"]), {1: 4, 2: 2, 4: 1}[k]))
+            q -= k
+        return out
+
+    asc = {"meter": meter, "key": rng.randint(-7, 7), "mode": rng.choice(["major", "minor", None]), "pickup": None,
+           "meterchg": {}, "keychg": {}, "staves": []}
+    for _ in range(nst):
+        asc["staves"].append({"clef": rng.choice(clefs),
+                              "voices": [[coarse(L) for _ in range(nm)] for _ in range(rng.choice([1, 1, 2]))]})
+    si = rng.randrange(nst)
+    vi = rng.randrange(len(asc["staves"][si]["voices"]))
+    m = rng.randrange(nm)
+    base = kind.split("_")[-1] if kind != "space16" else "space"
+    if kind in ("space", "rest", "chord", "note"):
+        w = 2
+        pat = [mk(base, 8), mk("note", 4), mk(base, 8)] if rng.random() < 0.7 else [mk(base, 8), mk(base, 8), mk("note", 4)]
+    elif kind == "space16":
+        w = 1
+        pat = [mk("space", 16), mk("note", 8), mk("space", 16)]
+    elif kind.startswith("dot_"):
+        w = 3 if (L == 3 or rng.random() < 0.4) else 4
+        pat = [mk(base, 4, 1), mk(base, 4, 1)] if w == 3 else [mk(base, 4, 1), mk("note", 4), mk(base, 4, 1)]
+    elif kind == "tuplet":
+        w = 2
+        tg = rng.getrandbits(30)
+        pat = [mk(rng.choice(["note", "note", "rest", "chord", "space"]), 4, 0, [3, 2, tg]) for _ in range(3)]
+        if all(e["t"] == "s" for e in pat):
+            pat[1] = mk("note", 4, 0, [3, 2, tg])
+    else:   # grace
+        w = 1
+        pat = [{"t": "g", "v": rng.choice([16, 32, 64]), "d": 0, "tup": None, "p": pitches(1)}, mk("note", 4)]
+    a = rng.randint(0, L - w)
+    asc["staves"][si]["voices"][vi][m] = coarse(a) + pat + coarse(L - a - w)
+    for st in asc["staves"]:
+        for voice in st["voices"]:
+            for mm in voice:
+                assert sum((ev_value(e) for e in mm), F(0)) == L, (kind, mm)
+    return asc, kind
+
+
+def fine_opt(rng, asc, kind):
+    """document options for gen_asc_fine: mostly no declared ppq; nothing that would itself carry a fine duration"""
+    opt = rand_mei_opt(rng, asc)
+    if rng.random() < 0.85:
+        opt["ppq"] = None
+    opt.update(short=None, space=False, space_nodur=False, ending=None, space_noid=rng.random() < 0.3)
+    if kind == "unit":
+        opt["silent"] = rng.choice(["mrest", "omit"])
+    return opt
+
+
+def divisions_clause(exp, infos, fails):
+    """the divisions chosen represent every duration exactly: every onset and duration the document denotes is a whole
+    number of the loaded part's divisions"""
+    for pi, (ex, inf) in enumerate(zip(exp, infos)):
+        dv = inf["divs"]
+        bad = [(n[0], n[1]) for n in ex["notes"] if (n[0] * dv).denominator != 1 or (n[1] * dv).denominator != 1]
+        bad += [(a, b - a) for a, b in zip(ex.get("mstarts", []), ex.get("mends", [])) if (a * dv).denominator != 1 or (b * dv).denominator != 1]
+        if bad:
+            fails.append("divisions: part %d is loaded with %s divisions per quarter, which cannot represent (onset, duration) = %s "
+                         "of the document" % (pi, dv, [(str(a), str(b)) for a, b in bad[:3]]))
+
+
+def staff_clause(exp, infos, fails):
+    """each note stands on its own @staff, else on the @staff of its <chord>, else on the enclosing <staff> @n"""
+    for pi, (ex, inf) in enumerate(zip(exp, infos)):
+        got = [n[:8] for n in inf["notes"]]
+        from collections import Counter
+        if Counter(n[:7] for n in ex["notes"]) == Counter(n[:7] for n in got) and Counter(ex["notes"]) != Counter(got):
+            miss = list((Counter(ex["notes"]) - Counter(got)).elements())
+            extra = list((Counter(got) - Counter(ex["notes"])).elements())
+            fails.append("staff: part %d: every note is loaded with its onset, duration, pitch and voice, but not on the staff it is "
+                         "written on: encoded %s, loaded %s" % (pi, [tuple(map(str, m)) for m in sorted(miss)[:3]],
+                                                                 [tuple(map(str, m)) for m in sorted(extra)[:3]]))
 
 
 def mei_events(text):
@@ -2496,7 +2870,9 @@ def rand_layout(rng):
             "final": rng.choice(["==", "==", "=", "==|!", None]), "deco": rng.random() < 0.5,
             "comments": rng.random() < 0.2, "staff_tags": rng.random() < 0.7,
             "part_tag": rng.choice(["*part1", "*part1", "*Ipiano"]), "tempo": rng.choice([None, None, 96]),
-            "first_bar": rng.choice([1, 1, 1, 5]), "mixed_parts": rng.random() < 0.3}
+            "first_bar": rng.choice([1, 1, 1, 5]), "mixed_parts": rng.random() < 0.3,
+            "dynam": rng.choice([None, None, None, "left", "right"]), "dynam_seed": rng.getrandbits(20),
+            "dynam_type": rng.choice(["**dynam", "**dynam", "**text"])}
 
 
 def cases(rng, tier):
@@ -2524,11 +2900,37 @@ def cases(rng, tier):
         opt = rand_mei_opt(r, asc)
         if opt["space"]:
             asc = spaces_for_rests(asc, r)
+        if r.random() < 0.3:
+            cross_staff(asc, opt, r)
+        if r.random() < 0.3:
+            clef_changes(asc, r)
+        opt["decor"] = r.random() < 0.3
+        opt["space_noid"] = r.random() < 0.3
         yield {"k": "mei", "asc": asc, "opt": opt, "seed": seed, "via": r.choice(["load_mei", "load_mei", ".mei", ".MEI"])}
+        if i % 4 == 3:
+            seed = rng.getrandbits(48)
+            r = random.Random(seed)
+            asc = gen_asc(r, exotic=False, max_measures=3, chord_ties=True)
+            opt = rand_mei_opt(r, asc)
+            opt.update(beams=True, space_nodur=False, short=None)
+            if r.random() < 0.5:
+                opt["tree"] = rand_tree(r, n_measures(asc))
+            yield {"k": "meirej", "asc": asc, "opt": opt, "seed": seed,
+                   "inj": {"place": r.choice(sorted(INJECT)), "nth": r.randrange(1000), "el": r.randrange(1000)}}
+        if i % 3 == 2:
+            # who carries the finest duration of a document without declared ppq
+            seed = rng.getrandbits(48)
+            r = random.Random(seed)
+            asc, fk = gen_asc_fine(r)
+            opt = fine_opt(r, asc, fk)
+            if r.random() < 0.3:
+                cross_staff(asc, opt, r, p=0.5)
+            yield {"k": "mei", "asc": asc, "opt": opt, "seed": seed, "fine": fk, "via": "load_mei"}
         if i % 4 == 1:
             seed = rng.getrandbits(48)
             r = random.Random(seed)
-            yield {"k": "kern3", "asc": gen_asc3(r), "lay": {"same_part": r.random() < 0.5}, "seed": seed}
+            yield {"k": "kern3", "asc": gen_asc3(r), "seed": seed,
+                   "lay": {"same_part": r.random() < 0.5, "multi": r.random() < 0.5, "joinall": r.random() < 0.5}}
         if i % 2 == 0:
             seed = rng.getrandbits(48)
             r = random.Random(seed)
@@ -2565,6 +2967,8 @@ def evaluate(d):
         return eval_mei(d)
     if k in ("xkern", "xmei"):
         return eval_export(d)
+    if k == "meirej":
+        return eval_meirej(d)
     if k == "kern3":
         return eval_kern3(d)
     if k == "fixture":
@@ -2652,12 +3056,84 @@ def eval_mei(d):
         tx = impl_texts(infos, "mei")
         ev.impl += [tx["notes"], tx["joined"], tx["meas"], tx["sigs"], W.f_list(lambda i: W.f_rat(i["divs"]), infos)]
         oracle_compare(exp, infos, ev.oracle)
+        if len(exp) == len(infos):
+            staff_clause(exp, infos, ev.oracle)
+            divisions_clause(exp, infos, ev.oracle)
         structure_clause(d, infos, ev.oracle)
         if opt.get("ppq") and opt.get("declare") in ("ppq", "both"):
             for pi, inf in enumerate(infos):
                 if inf["divs"] != opt["ppq"]:
                     ev.oracle.append("ppq: part %d declares ppq=%d, loaded with %s" % (pi, opt["ppq"], inf["divs"]))
     ev.key = "mei:" + text if infos and any(i["notes"] for i in infos) else None
+    return ev
+
+
+# ---------------------------------------------------------------------------- what the reader refuses, what it skips
+INJECT = {
+    # place -> (regex of the start tag after which the element is inserted, candidates, what load_mei does)
+    "layer": (r"<layer [^>/]*>", ['<mSpace xml:id="x1"/>', '<bTrem xml:id="x1"/>', '<graceGrp xml:id="x1"/>', '<app xml:id="x1"/>',
+                                   '<halfmRpt xml:id="x1"/>', '<section xml:id="x1"/>'], "err"),
+    "beam": (r"<beam [^>/]*>", ['<mSpace xml:id="x1"/>', '<bTrem xml:id="x1"/>', '<graceGrp xml:id="x1"/>'], "err"),
+    "tuplet": (r"<tuplet [^>/]*>", ['<mSpace xml:id="x1"/>', '<fTrem xml:id="x1"/>', '<measure xml:id="x1"/>'], "err"),
+    "section": (r"<section [^>/]*>", ['<annot xml:id="x1">x</annot>', '<staffDef xml:id="x1" n="1" lines="5"/>', '<div xml:id="x1"/>',
+                                      '<note xml:id="x1" dur="4" pname="c" oct="4"/>'], "err"),
+    "ending": (r"<ending [^>/]*>", ['<annot xml:id="x1">x</annot>', '<staffDef xml:id="x1" n="1" lines="5"/>'], "err"),
+    "noid": (r'<(?:note|rest|chord|mRest|multiRest) xml:id="[^"]*"', None, "err"),
+    # skipped by the reader: the document denotes what it denoted
+    "measure": (r"<measure [^>/]*>", ['<annot xml:id="x1">x</annot>', '<mSpace xml:id="x1"/>', '<staffDef xml:id="x1" n="1" lines="5"/>',
+                                      '<fermata xml:id="x1" tstamp="1" staff="1"/>'], "ok"),
+    "staff": (r"<staff [^>/]*>", ['<annot xml:id="x1">x</annot>', '<mSpace xml:id="x1"/>'], "ok"),
+    "score": (r"<score [^>/]*>", ['<pb xml:id="x1"/>', '<annot xml:id="x1">x</annot>', '<mSpace xml:id="x1"/>'], "ok"),
+    "chord": (r"<chord [^>/]*>", ['<artic xml:id="x1" artic="acc"/>', '<mSpace xml:id="x1"/>'], "ok"),
+}
+
+
+def inject(text, inj):
+    """one more element in a generated document: -> (text, place used, "err" | "ok")"""
+    import re
+
+    place = inj["place"]
+    pat, cands, what = INJECT[place]
+    hits = list(re.finditer(pat, text))
+    if not hits:
+        place = "layer"
+        pat, cands, what = INJECT[place]
+        hits = list(re.finditer(pat, text))
+    if not hits:
+        return text, None, "ok"
+    h = hits[inj["nth"] % len(hits)]
+    if cands is None:      # drop the xml:id of an element that becomes a score object
+        tag_end = text.index(" ", h.start())
+        return text[:tag_end] + text[h.end():], place, what
+    return text[:h.end()] + cands[inj["el"] % len(cands)] + text[h.end():], place, what
+
+
+def eval_meirej(d):
+    """documents with one element the reader refuses (model = code: both refuse) or skips (the oracle applies unchanged)"""
+    asc, opt = d["asc"], d["opt"]
+    text0 = write_mei(asc, opt, random.Random(d.get("seed", 0) ^ 0x5EED))
+    text, place, what = inject(text0, d["inj"])
+    ev = Eval(info={"text": text, "place": place, "expect": what})
+    try:
+        infos = extract_parts(load_text(text, ".mei", loader="mei"))
+        err = None
+    except Exception as e:
+        infos, err = None, e
+    evs = mei_events(text)
+    for w_ in ("notes", "joined", "meas", "sigs", "ppq"):
+        ev.requests.append(mei_request(w_, evs))
+    if err is not None:
+        ev.impl += ["err"] * 5
+        if what == "ok":
+            ev.oracle.append("load: load_mei raised %s: %s on a document with an element it has no reason to look at (%s)" % (
+                type(err).__name__, str(err)[:160], place))
+    else:
+        tx = impl_texts(infos, "mei")
+        ev.impl += [tx["notes"], tx["joined"], tx["meas"], tx["sigs"], W.f_list(lambda i: W.f_rat(i["divs"]), infos)]
+        if what == "ok":
+            exp = mei_expect(asc, opt)
+            oracle_compare(exp, infos, ev.oracle)
+    ev.key = "meirej:%s:%s" % (place, text)
     return ev
 
 
@@ -2752,7 +3228,7 @@ def finding_key(d, f):
 def shrink(d):
     import copy
 
-    if d["k"] not in ("kern", "mei", "xkern", "xmei", "kern3"):
+    if d["k"] not in ("kern", "mei", "xkern", "xmei", "kern3", "meirej"):
         return
     asc = d["asc"]
     nm = n_measures(asc)
@@ -2816,7 +3292,7 @@ def _shrink(d, asc, nm, mk):
                     v[0] = [{"t": "r", "v": vv, "d": dd, "tup": None} for (vv, dd) in rest_fill(meter_len(a["meter"]))]
         yield mk(a)
     # plainer document structure (MEI): first everything at once, then one dimension at a time
-    if d["k"] == "mei":
+    if d["k"] in ("mei", "meirej"):
         opt = d["opt"]
         flat = plain_structure(opt)
         if any(opt.get(k) != flat.get(k) for k in STRUCT_KEYS):
@@ -2832,6 +3308,29 @@ def _shrink(d, asc, nm, mk):
                         [{"t": "sec", "c": [{"t": "end", "c": list(range(nm))}]}]):
                 if tree != two:
                     yield mk(copy.deepcopy(asc), opt=dict(opt, tree=two))
+        if opt.get("mrest_staff"):
+            yield mk(copy.deepcopy(asc), opt=dict(opt, mrest_staff=None))
+        if opt.get("decor"):
+            yield mk(copy.deepcopy(asc), opt=dict(opt, decor=False))
+        if opt.get("space_noid"):
+            yield mk(copy.deepcopy(asc), opt=dict(opt, space_noid=False))
+        if any(e.get("clefb") for st in asc["staves"] for v in st["voices"] for mm in v if mm for e in mm):
+            a = copy.deepcopy(asc)
+            for st in a["staves"]:
+                for v in st["voices"]:
+                    for mm in v:
+                        for e in (mm or []):
+                            e.pop("clefb", None)
+            yield mk(a)
+        if any(e.get("xs") or e.get("cs") for st in asc["staves"] for v in st["voices"] for mm in v if mm for e in mm):
+            a = copy.deepcopy(asc)
+            for st in a["staves"]:
+                for v in st["voices"]:
+                    for mm in v:
+                        for e in (mm or []):
+                            e.pop("xs", None)
+                            e.pop("cs", None)
+            yield mk(a)
         for key, plain in (("slurs", 0), ("ctl_shuffle", False), ("ctl_before", False), ("tie_at", "end"), ("tie_at", "start"),
                            ("sd_at", "next"), ("short", None), ("sb", False), ("beams", False), ("rptstart", []), ("rptend", [])):
             if opt.get(key, plain) != plain and not (key == "tie_at" and opt.get(key) in ("end", "start")):
@@ -2866,10 +3365,17 @@ def _shrink(d, asc, nm, mk):
                             a["staves"][si]["voices"][vi][mi][ei]["p"] = [["C", 0, 4]]
                             yield mk(a)
     # plainer layout
-    if "lay" in d:
+    if d["k"] == "kern3":
+        for key in ("multi", "joinall", "same_part"):
+            if d["lay"].get(key):
+                yield mk(copy.deepcopy(asc), lay=dict(d["lay"], **{key: False}))
+    elif "lay" in d:
         plain = {"same_part": d["lay"]["same_part"], "split": d["lay"]["split"], "bar0": True, "barstyle": "", "bar0style": "",
                  "final": "==", "deco": False, "comments": False, "staff_tags": True, "part_tag": "*part1", "tempo": None,
-                 "first_bar": 1}
+                 "first_bar": 1, "dynam": d["lay"].get("dynam"), "dynam_seed": d["lay"].get("dynam_seed", 0),
+                 "dynam_type": d["lay"].get("dynam_type", "**dynam")}
+        if d["lay"].get("dynam"):
+            yield mk(copy.deepcopy(asc), lay=dict(d["lay"], dynam=None))
         if d["lay"] != plain:
             yield mk(copy.deepcopy(asc), lay=plain)
         for key in ("same_part", "split"):
@@ -2907,12 +3413,19 @@ def distribution(descs, results):
                 feats["kern_midmeasure_split_docs"] += 1 if (d["lay"]["split"] and any(e["t"] == "s" for e in evs)) else 0
                 feats["kern_one_part_docs"] += 1 if d["lay"]["same_part"] else 0
                 feats["kern_via_load_score"] += 1 if d.get("via", "load_kern") != "load_kern" else 0
+                feats["kern_other_spine_%s" % d["lay"].get("dynam")] += 1 if d["lay"].get("dynam") else 0
             if d["k"] == "kern3":
                 feats["kern3_max_subspines=%d" % max(len(st["voices"]) for st in a["staves"])] += 1
+                rows_ = [ln.split("\t") for ln in write_kern3(a, d["lay"], random.Random(0))[0].split("\n")]
+                feats["kern3_join_of_3_or_more"] += 1 if any(
+                    any(r_[x:x + 3] == ["*v"] * 3 for x in range(len(r_))) for r_ in rows_) else 0
+                feats["kern3_several_splits_in_a_row"] += 1 if any(r_.count("*^") > 1 for r_ in rows_) else 0
             if d["k"] in ("xkern", "xmei"):
                 feats["export_shuffled"] += 1 if (d.get("xopt") or {}).get("shuffle") else 0
                 feats["export_not_exportable"] += 1 if d.get("nonexp") else 0
                 feats["export_silent_staff"] += 1 if "silent_staff" in (d.get("xopt") or {}) else 0
+            if d["k"] == "meirej":
+                feats["meirej_%s" % d["inj"]["place"]] += 1
             if d["k"] == "mei":
                 toks = tree_tokens(mei_tree(d["opt"], n_measures(a)))
                 depth, maxd, top = 0, 0, 0
@@ -2955,5 +3468,16 @@ def distribution(descs, results):
                 feats["mei_dur_ppq_only"] += 1 if (d["opt"].get("ppq") and d["opt"].get("declare") == "durppq") else 0
                 feats["mei_sig_" + d["opt"]["sig_loc"]] += 1
                 feats["mei_short_layer"] += 1 if d["opt"].get("short") else 0
+                feats["mei_decorated"] += 1 if d["opt"].get("decor") else 0
+                feats["mei_spaces_without_id"] += 1 if (d["opt"].get("space_noid") and any(
+                    e["t"] == "s" for st_ in a["staves"] for v in st_["voices"] for mm in v if mm for e in mm)) else 0
+                cb = [(e, mm) for st_ in a["staves"] for v in st_["voices"] for mm in v if mm for e in mm if e.get("clefb")]
+                feats["mei_clef_change_docs"] += 1 if cb else 0
+                feats["mei_clef_change_in_beam_or_tuplet"] += 1 if any(
+                    e.get("tup") or (d["opt"].get("beams") and e["v"] >= 8) for e, mm in cb) else 0
+                if d.get("fine"):
+                    feats["mei_finest_by_%s%s" % (d["fine"], "" if not d["opt"].get("ppq") else "(ppq declared)")] += 1
+                for sh in xstaff_shapes(a, d["opt"]):
+                    feats["mei_xstaff_" + sh] += 1
     errs = sum(1 for r in results for x in r["impl"] if x == "err")
     return {"by_kind": dict(c), "features": dict(feats), "error_observations": errs}
